@@ -123,9 +123,15 @@ def apply_op(rng, m, op):
         nseg = int(rng.integers(4, 9)) if not closing else int(rng.integers(5, 10))
         if rng.integers(0, 3) == 0:
             # explicit (non-uniform) angles, open or ending exactly at 360 degrees
-            inner = np.sort(rng.uniform(10, (350 if closing else phi - 5), nseg - 1))
-            inner = inner[np.concatenate([[True], np.diff(inner) > 8])]
-            return mm.revolve(phi=np.concatenate([[0.0], inner, [360.0 if closing else phi]]), axis=axis)
+            # the number of angles is independent of the keyword n (fewer or more than its default 11, or a
+            # conflicting n handed over as well: the array decides)
+            many = rng.integers(0, 2) == 1
+            inner = np.sort(rng.uniform(10, (350 if closing else phi - 5), (int(rng.integers(12, 20)) if many else nseg - 1)))
+            inner = inner[np.concatenate([[True], np.diff(inner) > (3 if many else 8)])]
+            angles = np.concatenate([[0.0], inner, [360.0 if closing else phi]])
+            if rng.integers(0, 3) == 0:
+                return mm.revolve(n=int(rng.integers(2, len(angles))), phi=angles, axis=axis)
+            return mm.revolve(phi=angles, axis=axis)
         return mm.revolve(n=nseg + 1, phi=phi, axis=axis)
     if op == "edges":
         return m.add_midpoints_edges()
